@@ -254,6 +254,12 @@ func c07Amd64(r *Report, p *Prog, u *AsmUnit, fn *ssa.Function, ret *ssa.Return,
 		r.Obls = append(r.Obls, o)
 	}
 	r.Count("consumption_obligations", len(res.consumption))
+	// SCRATCH-REINIT: the staging block is cleared before every partial copy that follows a consumed staging
+	r.Obls = append(r.Obls, res.scratchObl...)
+	if len(res.scratchObl) == 0 {
+		r.Ok("SCRATCH-REINIT", "amd64/openAsm", "sm4/"+rt.File, fmt.Sprintf("%d vector loads from the scratch block on all paths: none reads bytes left over from an earlier staging (scratch is zero on entry: a fresh local of Open)", res.scratchLoads))
+	}
+	r.Count("scratch_loads", res.scratchLoads)
 }
 
 // c07TagFold: demanded-bits analysis of the straight-line fold that precedes the verdict branch: every bit the compare
@@ -351,6 +357,25 @@ func c07TagFold(r *Report, rt *Routine, flow *FlowResult, a *xAnalysis, verdict 
 		}
 		n++
 		reg := in.Args[1].Reg
+		// TAG-COVERAGE: per iteration the loop advances its pointer by exactly the number of bytes it folds into the
+		// accumulator, and the difference it folds was written at least that wide
+		{
+			xb := a.blocks[a.blockOf[idx]]
+			width := map[string]int64{"ORQ": 8, "ORL": 4, "ORW": 2, "ORB": 1}[in.Op]
+			base := in.Args[0].Reg
+			var step, xorW int64
+			for j := xb.start; j <= xb.end && j < len(rt.Instrs); j++ {
+				o := rt.Instrs[j]
+				if (o.Op == "ADDQ" || o.Op == "LEAQ") && len(o.Args) == 2 && o.Args[0].Kind == OImm && o.Args[1].Kind == OReg && o.Args[1].Reg == base {
+					step += o.Args[0].Imm
+				}
+				if strings.HasPrefix(o.Op, "XOR") && len(o.Args) == 2 && isMemOp(o.Args[1]) && o.Args[1].Reg == base && o.Args[1].Off == in.Args[0].Off {
+					xorW = map[string]int64{"XORQ": 8, "XORL": 4, "XORW": 2, "XORB": 1}[o.Op]
+				}
+			}
+			okCov := in.Args[0].Off == 0 && step == width && xorW >= width
+			r.Check(okCov, "TAG-COVERAGE", fmt.Sprintf("amd64/openAsm compare loop folding into %s (%s)", reg, in.Op), in.Pos, fmt.Sprintf("per iteration: pointer %s advances by %d, the difference is written %d bytes wide and %d bytes of it are folded into %s%s", base, step, xorW, width, reg, ifs(!okCov, "; every byte the loop steps over must be folded into the accumulator")))
+		}
 		missing := bits &^ demand[reg]
 		r.Check(missing == 0, "TAG-FOLD", fmt.Sprintf("amd64/openAsm accumulator %s (%s)", reg, in.Op), in.Pos, fmt.Sprintf("bits the compare loop can set: %#x; bits that reach the verdict: %#x%s", bits, demand[reg], ifs(missing != 0, fmt.Sprintf("; bits %#x of the tag difference never influence the verdict", missing))))
 	}
